@@ -113,6 +113,9 @@ def check(ctx):
         return
     pv = md.pv
     by_label = check_dispatch(ctx, md, HEADER_PARAMS, RESULT)
+    # "a registered ... integer": the registries whose values decide what this decoder accepts carry the IANA integers
+    from rules import c17 as _c17
+    _c17.check_tables(ctx.under("R-4", "registry"), only={"iana::Algorithm", "iana::HeaderParameter", "iana::CoapContentFormat"})
     # "pairwise distinct labels": the duplicate rule of this decoder (C12 R-1's recogniser under this property's name)
     from rules import c12 as _c12
     _c12.check_decoder(ctx.under("R-1", "distinct-labels"), DEC, "R-1")
